@@ -221,6 +221,7 @@ impl LookupClass<&StringName, Class> for Context {
             let clss = clss
                 .parents
                 .iter()
+                .sorted() // if parents define the same member, which one is inherited may not depend on hash order
                 .map(|p| self.class(p, pos))
                 .collect::<TypeResult<Vec<Class>>>()?
                 .iter()
@@ -349,7 +350,10 @@ impl GetFun<Function> for Class {
     /// If class does not implement function, traverse parents until function
     /// found.
     fn fun(&self, name: &StringName, pos: Position) -> TypeResult<Function> {
-        if let Some(function) = self.functions.iter().find(|f| &f.name == name) {
+        // if there are multiple functions with the same name, which one is taken may not depend on hash order
+        let same_name = self.functions.iter().filter(|f| &f.name == name);
+        let arg_tys = |f: &Function| -> Vec<Option<Name>> { f.arguments.iter().map(|a| a.ty.clone()).collect() };
+        if let Some(function) = same_name.min_by_key(|f| (f.ret_ty.clone(), arg_tys(f))) {
             return Ok(function.clone());
         }
         Err(vec![TypeErr::new(
